@@ -1519,12 +1519,19 @@ def remove_redundant_comprehensions(source: str) -> str:
         ast.Set: "set",
         ast.Tuple: "tuple",
     }
-    find = core.compile_template((
-        "[{{target}} for {{target}} in {{iterable}}]",
-        "{{{target}} for {{target}} in {{iterable}}}",
-        "({{target}} for {{target}} in {{iterable}})",
-        "{{{key}}: {{value}} for {{key}}, {{value}} in {{iterable}}}",
-    ))
+    # The target must be a plain name: '[(a, b) for a, b in x]' makes a tuple of every item of x,
+    # whatever type it had, and fails for items that are not pairs.
+    find = core.compile_template(
+        (
+            "[{{target}} for {{target}} in {{iterable}}]",
+            "{{{target}} for {{target}} in {{iterable}}}",
+            "({{target}} for {{target}} in {{iterable}})",
+            "{{{key}}: {{value}} for {{key}}, {{value}} in {{iterable}}}",
+        ),
+        target=ast.Name,
+        key=ast.Name,
+        value=ast.Name,
+    )
     replace = "{{funcname(root)}}({{iterable}})"
 
     def funcname(template_match_tuple):
